@@ -21,7 +21,7 @@ from concurrent.futures import ThreadPoolExecutor
 
 REPO = os.environ.get("VERIF_REPO", "/repo")
 VERIF = os.path.dirname(os.path.dirname(os.path.abspath(__file__)))
-BUILD = os.path.join(VERIF, "build")
+BUILD = os.path.join(os.environ.get("VERIF_OUT", VERIF), "build")
 GUARD = "XSCO_LIBDJINTEROP_VERIF"
 CXX = "g++"
 
